@@ -82,6 +82,8 @@ def instances(tier, seed):
         nb = [2, 1, 1, 2, 1, 2, 1][k]
         out.append(dict(name=f"cml:{scheme}:n{n}:b{nb}", family='cml', scheme=scheme, n=n, nb=nb, cost=5 * n ** (2 * nb)))
     out.append(dict(name="cml:seq:n1:b0", family='cml', scheme='seq', n=1, nb=0, cost=1))
+    for k, els in enumerate([['H', 'O', 'C', 'O'], ['N', 'C', 'H'], ['Zr', 'Hf', 'O', 'Zr'], ['O', 'Zr', 'C', 'H']]):
+        out.append(dict(name=f"cml:elements{k}:{'-'.join(els)}", family='cml', scheme='seq', n=len(els), nb=1, els=els, cost=5))
     out.append(dict(name="cml:strings:n3:b0", family='cml', scheme='strings', n=3, nb=0, cost=1))
     out.append(dict(name="cml:nonseq:n2:b0", family='cml', scheme='nonseq', n=2, nb=0, cost=1))
     if tier == 'thorough':
@@ -108,7 +110,7 @@ def body(ctx, p):
     Atoms = ctx.ms.Atoms
     n, nb = p['n'], p['nb']
     ids = ID_SCHEMES[p['scheme']][:n]
-    els = [ELS[(i * 2 + len(p['scheme'])) % 4] for i in range(n)]
+    els = list(p['els']) if p.get('els') else [ELS[(i * 2 + len(p['scheme'])) % 4] for i in range(n)]
     xyz = [[ctx.real(f"x{i}{c}", -10000, 10000) for c in 'xyz'] for i in range(n)]
     ends = [[ctx.int(f"b{j}_{c}", 0, n - 1) for c in range(2)] for j in range(nb)]
     orders = [1, 2, 1.5][:nb]
